@@ -225,6 +225,8 @@ def assert_all_jobs_have_same_symbols(
 def make_pmappings_from_templates(
     jobs_with_similar_compatibilities: SameTemplateJobs,
 ) -> tuple[EinsumName, list[PmappingGroup], dict[UUID, Mapping]]:
+    from accelforge.model.main import InvalidMappingError
+
     jwsc = jobs_with_similar_compatibilities
 
     results = []
@@ -233,6 +235,20 @@ def make_pmappings_from_templates(
     for job in jobs_with_similar_compatibilities:
         try:
             result, tensor2mapping = make_tile_shapes(job)
+        except InvalidMappingError:
+            # A template whose tile shapes are all fixed is a concrete mapping. If the
+            # model rejects it (e.g., it oversubscribes a memory), then it contributes
+            # no pmappings.
+            job.log_porp_pmappings_kept("Invalid mapping", 0)
+            pmapping_keep_rates.append(
+                (
+                    job.job_id,
+                    dict(job.pmapping_keep_rates),
+                    job.n_total_pmappings,
+                    job.n_evaluated_pmappings,
+                )
+            )
+            continue
         except Exception as e:
             e.add_note(f"Einsum {jwsc.einsum_name} compatibility {job.compatibility}")
             raise
@@ -294,6 +310,8 @@ def make_pmappings_from_templates(
     # Creating a PmappingDataframe fills in reservation columns since different pmappings
     # have different ones.
     next_shared_loop_index = compatibility.n_loops - 1
+    if not results:
+        return einsum_name, [], {}, pmapping_keep_rates
     df = PmappingDataframe.concat(
         [
             PmappingDataframe(
